@@ -1,0 +1,11 @@
+// Copyright 2025 The Go MCP SDK Authors. All rights reserved.
+// Use of this source code is governed by the license
+// that can be found in the LICENSE file.
+
+//go:build !verif
+
+package mcp
+
+// verifYield marks a schedule point for the verification harness (build tag
+// "verif"). In normal builds it is empty and inlined away.
+func verifYield(site, detail string) {}
